@@ -191,7 +191,8 @@ def instances(formulas, opts=None):
         args = [e.arg(i) for i in range(2, e.num_args())]
         zero = z3.IntVal(0) if z3.is_int(e) else RV(0)
         out.append(z3.Implies(hi <= lo, e == zero))
-        if opts.get("unfold", True):
+        only = opts.get("unfold_only")      # optional: names of the Σ-functions whose applications are unfolded
+        if opts.get("unfold", True) and (only is None or sd.name in only):
             last = sd.fn(lo, z3.simplify(hi - 1), *args)
             out.append(z3.Implies(hi > lo, e == last + sd.body_at(z3.simplify(hi - 1), args)))
         if opts.get("unfold_first", False):
